@@ -5,5 +5,11 @@ CONSTANTS
   AsFound_NaNExitsLoop = FALSE
   AsFound_DecorativeAfterAppend = FALSE
   AsFound_NoSweepAtBigTolerance = FALSE
+  MaxRetries = 9
+  CapBoost = 0
+  SweepAlphabet = {}
+  DecoAlphabet = {}
+  BigChoices = {}
+  LaggedRecordedAtSetup = FALSE
 POSTCONDITION AllConsumed
 CHECK_DEADLOCK FALSE
